@@ -8,6 +8,7 @@ package c17old
 
 import (
 	"context"
+	"runtime"
 	"sync/atomic"
 	"testing"
 	"time"
@@ -165,4 +166,127 @@ func runTrigReal(p TrigRealPlan) (vk.Outcome, error) {
 
 func TestTriggerFollowedByRunRealClock(t *testing.T) {
 	vk.Run(t, suite, "pot-trigger-real", 12, genTrigReal, runTrigReal)
+}
+
+// ---------------------------------------------------------------- a group function that calls back into its group during the stop (real clock)
+//
+// StopAndWait waits for the functions that are running; a running function may, at that very time, call
+// Do / Stop / a trigger function of its own group (a follow-up job, a fatal-error path). None of those calls
+// may wait for StopAndWait - which is waiting for them. A bubble cannot see this kind of wait (the calls
+// would sit on a mutex), so: real goroutines, 5 s on the active clock.
+
+type ReentrantPlan struct {
+	Call  string `json:"call"` // Do | Stop | Trigger | Periodic
+	Funcs int    `json:"funcs"`
+}
+
+func genReentrant(t *rapid.T) ReentrantPlan {
+	return ReentrantPlan{Call: rapid.SampledFrom([]string{"Do", "Do", "Stop", "Trigger", "Periodic"}).Draw(t, "call"), Funcs: rapid.IntRange(1, 4).Draw(t, "funcs")}
+}
+
+func runReentrant(p ReentrantPlan) (vk.Outcome, error) {
+	var out vk.Outcome
+	g := xsync.NewGroup(context.Background())
+	stopping := make(chan struct{})
+	var childRan atomic.Int32
+	var inside, finished atomic.Int32
+	trig := g.Trigger(func(ctx context.Context) { childRan.Add(1) })
+	for i := 0; i < p.Funcs; i++ {
+		g.Do(func(ctx context.Context) {
+			inside.Add(1)
+			<-stopping
+			<-ctx.Done() // the stop has begun
+			switch p.Call {
+			case "Do":
+				g.Do(func(context.Context) { childRan.Add(1) })
+			case "Stop":
+				g.Stop()
+			case "Trigger":
+				trig()
+			case "Periodic":
+				g.Periodic(time.Millisecond, 0, func(context.Context) { childRan.Add(1) })
+			}
+			finished.Add(1)
+		})
+	}
+	for inside.Load() < int32(p.Funcs) {
+		time.Sleep(50 * time.Microsecond)
+	}
+	done := make(chan struct{})
+	go func() { close(stopping); g.StopAndWait(); close(done) }()
+	select {
+	case <-done:
+	case <-vk.After(5 * time.Second):
+		return out, vk.Violf("stuck", "StopAndWait has not returned after 5 s: %d running function(s) of the group call %s on their own group once the stop has begun (%d of them got past that call)", p.Funcs, p.Call, finished.Load())
+	}
+	if finished.Load() != int32(p.Funcs) {
+		return out, vk.Violf("barrier", "StopAndWait returned while %d of %d functions were still running", int32(p.Funcs)-finished.Load(), p.Funcs)
+	}
+	before := childRan.Load()
+	time.Sleep(2 * time.Millisecond)
+	if childRan.Load() != before {
+		return out, vk.Violf("started-after-stop", "a function registered from inside a running group function during the stop ran after StopAndWait had returned")
+	}
+	out.NonTrivial = true
+	out.Label("reentrant:" + p.Call)
+	return out, nil
+}
+
+func TestStopWithReentrantCalls(t *testing.T) {
+	vk.Run(t, suite, "stop-reentrant", 60, genReentrant, runReentrant)
+}
+
+// ---------------------------------------------------------------- a group nobody holds a reference to (real clock, real GC)
+//
+// Fire and forget: the caller starts periodic work and a trigger, keeps only the trigger function and lets
+// the *Group go; the group's life is the parent context's. Garbage collections in between change nothing:
+// the periodic function keeps being invoked and a trigger call is followed by a run.
+
+type DroppedPlan struct {
+	GCs int `json:"gcs"`
+}
+
+func genDropped(t *rapid.T) DroppedPlan { return DroppedPlan{GCs: rapid.IntRange(1, 4).Draw(t, "gcs")} }
+
+//go:noinline
+func startAndForget(parent context.Context, ticks, runs *atomic.Int64) func() {
+	g := xsync.NewGroup(parent)
+	g.Periodic(200*time.Microsecond, 0, func(context.Context) { ticks.Add(1) })
+	return g.Trigger(func(context.Context) { runs.Add(1) })
+}
+
+func runDropped(p DroppedPlan) (vk.Outcome, error) {
+	var out vk.Outcome
+	parent, cancel := context.WithCancel(context.Background())
+	defer cancel()
+	var ticks, runs atomic.Int64
+	trigger := startAndForget(parent, &ticks, &runs)
+	for i := 0; i < p.GCs; i++ {
+		runtime.GC()
+		time.Sleep(time.Millisecond) // finalizers run on a goroutine of their own
+	}
+	waitFor := func(c *atomic.Int64, above int64) bool {
+		waited := vk.ActiveSince()
+		for c.Load() <= above {
+			if waited() > 3*time.Second {
+				return false
+			}
+			time.Sleep(100 * time.Microsecond)
+		}
+		return true
+	}
+	if t0 := ticks.Load(); !waitFor(&ticks, t0+2) {
+		return out, vk.Violf("periodic-stalled", "after %d garbage collections the Periodic function of a group that nobody stopped (its *Group value is unreachable, its parent context alive) is no longer invoked: %d runs in 3 s", p.GCs, ticks.Load()-t0)
+	}
+	r0 := runs.Load()
+	trigger()
+	if !waitFor(&runs, r0) {
+		return out, vk.Violf("trigger-lost", "after %d garbage collections a call of the trigger function of a group that nobody stopped was not followed by a run within 3 s", p.GCs)
+	}
+	out.NonTrivial = true
+	return out, nil
+}
+
+func TestGroupNobodyHolds(t *testing.T) {
+	vk.Run(t, suite, "group-dropped", 20, genDropped, runDropped)
 }
